@@ -97,8 +97,18 @@ def check_history(case, stats):
     perturbed = False
     nt = False
     kept = []  # (index, result object as returned, snapshot taken when it was returned)
+    kept_exc = []  # (index, exception object as raised, its errors as read when it was raised)
     for i, (text, stop) in enumerate(items):
         r = gh.parse(text, parser=parser, matcher=matcher, stop=stop) if own else parse_default(parser, text, stop)
+        if r[0] != "ok" and not stop and i + 1 < len(items):
+            # the same rejection once more, this time keeping the exception object itself while the parser goes on
+            parser.stop_at_first_error = False
+            try:
+                parser.parse(text, matcher) if own else parser.parse(text)
+            except gh.CompositeParserException as e:
+                kept_exc.append((i, e, [gh.err_tuple(x) for x in e.errors]))
+            except gh.ParserException:
+                pass
         got = norm_result(r)
         want = fresh(text, dflt, stop)
         if i > 0 and perturbed:
@@ -115,6 +125,10 @@ def check_history(case, stats):
                 raise Violation(case, "pickles of document #%d from a used compiler differ from a fresh compiler's, %s" % (i, diff_text(pk, pk2, "reused", "fresh")))
         if r[0] != "ok" or "language:" in text or '"""' in text or "```" in text:
             perturbed = True
+    for i, e, snap in kept_exc:
+        now = [gh.err_tuple(x) for x in e.errors]
+        if now != snap:
+            raise Violation(case, "the errors carried by the exception raised for document #%d changed while the same parser processed later documents: now %r, when raised %r" % (i, now[:3], snap[:3]))
     for i, obj, snap in kept:
         if obj != snap:
             raise Violation(case, "the document returned for #%d of the history was modified by later parses with the same instances: %s" % (i, diff_text(obj, snap, "now", "when returned")))
@@ -478,8 +492,62 @@ def check_threads(case, stats):
         raise Violation(case, "thread %d parsing document #%d concurrently with other threads (separate instances) got another result than alone: %s" % (k, j, d))
 
 
+RACE_SCRIPT = r"""
+import sys, json, threading
+sys.path.insert(0, sys.argv[1]); sys.path.insert(0, sys.argv[2])
+from vlib import gh
+from vlib.refs import DIALECTS, step_keywords, step_keyword_type
+sys.setswitchinterval(1e-6)
+bad = []
+names = sorted(DIALECTS)
+k0 = int(sys.argv[3])
+for d in names[k0::4]:
+    D = DIALECTS[d]
+    kws = []
+    for k, _ in step_keywords(d):
+        if k not in kws and k != "* ":
+            kws.append(k)
+    text = "%s: f\n %s: s\n" % (D["feature"][0], D["scenario"][0]) + "".join("  %sx\n" % k for k in kws)
+    want = []
+    for k in kws:
+        line = k + "x"
+        m = next(x for x, _ in step_keywords(d) if line.startswith(x))
+        want.append(step_keyword_type(d, m))
+    barrier = threading.Barrier(8)
+    out = [None] * 8
+    def work(i):
+        barrier.wait()
+        try:
+            r = gh.parse(text, d)   # the first use of this dialect in this process, by 8 threads at once
+            out[i] = [s["keywordType"] for s in r[1]["feature"]["children"][0]["scenario"]["steps"]] if r[0] == "ok" else r[1][:1]
+        except BaseException as e:
+            out[i] = repr(e)
+    ts = [threading.Thread(target=work, args=(i,)) for i in range(8)]
+    [t.start() for t in ts]; [t.join() for t in ts]
+    for i, o in enumerate(out):
+        if o != want:
+            bad.append([d, i, o if isinstance(o, str) else o[:6], want[:6]])
+            break
+print(json.dumps(bad))
+"""
+
+
+def check_first_use_race(case, stats):
+    """eight threads make the very first use of a dialect in a fresh process at the same moment (per dialect, four fresh processes)"""
+    r = subprocess.run([sys.executable, "-X", "utf8", "-c", RACE_SCRIPT, os.path.join(REPO, "python"), VERIF, str(case["slice"])], capture_output=True, text=True, timeout=600,
+                       cwd=os.getcwd(), env=dict(os.environ, PYTHONDONTWRITEBYTECODE="1"))
+    if r.returncode != 0:
+        raise HarnessError("first-use race subprocess failed: " + r.stderr[-600:])
+    bad = json.loads(r.stdout.strip().splitlines()[-1])
+    stats.case(("first-use", case["slice"], case.get("rep", 0)), True, sample={"dialects": 20, "threads": 8})
+    if bad:
+        d, i, got, want = bad[0]
+        raise Violation(case, "dialect %s used for the first time in a process by 8 threads at once: thread %d got step keyword types %r, expected %r" % (d, i, got, want))
+
+
 def unit_threads(a):
     stats = Stats()
+    sweep(stats, [{"sub": "first-use-race", "slice": k, "rep": rep} for rep in range(a.get("race_reps", 1)) for k in range(4)], check_first_use_race)
     texts = [POOL["outline"], POOL["doc_q"], POOL["doc_b"], POOL["fr_hdr"], POOL["pirate_hdr_doc"], POOL["ragged"], POOL["cap"],
              "Feature: t\n Scenario: s\n  Given x\n" + "".join("   | c%d | \\| %d | é |\n" % (i, i) for i in range(12)),
              "@a @b\nFeature: t\n @c\n Scenario Outline: o <x>\n  Given <x>\n   | <x> | v |\n @e @f\n Examples:\n   | x |\n" + "".join("   | %d |\n" % i for i in range(8))]
@@ -521,21 +589,30 @@ def determinism_texts():
 
 def check_determinism(case, stats):
     results = {}
-    for hs, order in case["runs"]:
+    for run in case["runs"]:
+        hs, order = run[0], run[1]
+        flavour = run[2] if len(run) > 2 else "plain"
         env = dict(os.environ, PYTHONHASHSEED=str(hs), PYTHONDONTWRITEBYTECODE="1")
-        r = subprocess.run([sys.executable, "-c", DIGEST_SCRIPT, os.path.join(REPO, "python"), VERIF, order], capture_output=True, text=True, env=env, timeout=600,
+        flags = []
+        if flavour == "optimised":
+            flags = ["-O"]                      # assertions stripped
+        elif flavour == "c-locale":
+            env.update(LC_ALL="C", LANG="C", PYTHONUTF8="0", PYTHONCOERCECLOCALE="0", PYTHONIOENCODING="utf-8")   # a non-UTF-8 locale
+        r = subprocess.run([sys.executable] + flags + ["-c", DIGEST_SCRIPT, os.path.join(REPO, "python"), VERIF, order], capture_output=True, text=True, env=env, timeout=600,
                            cwd=os.getcwd())
         if r.returncode != 0:
-            raise HarnessError("determinism subprocess failed: " + r.stderr[-500:])
-        results[(hs, order)] = json.loads(r.stdout.strip().splitlines()[-1])
-        stats.case(("run", hs, order), True, sample={"PYTHONHASHSEED": hs, "order": order, "documents": len(results[(hs, order)])})
-    base_key = case["runs"][0]
-    base = results[tuple(base_key)]
+            if flavour != "plain" and "vlib" not in r.stderr[-1500:].split("Error")[0][-400:] and "gherkin" in r.stderr:
+                raise Violation(case, "the library fails in a %s interpreter: %s" % (flavour, r.stderr[-600:]))
+            raise HarnessError("determinism subprocess (%s) failed: %s" % (flavour, r.stderr[-800:]))
+        results[(hs, order, flavour)] = json.loads(r.stdout.strip().splitlines()[-1])
+        stats.case(("run", hs, order, flavour), True, sample={"PYTHONHASHSEED": hs, "order": order, "interpreter": flavour, "documents": len(results[(hs, order, flavour)])})
+    base_key = (case["runs"][0][0], case["runs"][0][1], case["runs"][0][2] if len(case["runs"][0]) > 2 else "plain")
+    base = results[base_key]
     for key, res in results.items():
         for k in base:
             if res.get(k) != base[k]:
-                raise Violation(case, "parse+compile result of %r differs between a process with PYTHONHASHSEED=%s processing the documents in %s order and one with PYTHONHASHSEED=%s in %s order" % (
-                    k, base_key[0], base_key[1], key[0], key[1]))
+                raise Violation(case, "parse+compile result of %r differs between a process (PYTHONHASHSEED=%s, documents in %s order, %s interpreter) and one (PYTHONHASHSEED=%s, %s order, %s interpreter)" % (
+                    k, base_key[0], base_key[1], base_key[2], key[0], key[1], key[2]))
 
 
 def check_twice(case, stats):
@@ -560,12 +637,12 @@ def check_twice(case, stats):
 def unit_determinism(a):
     stats = Stats()
     sweep(stats, [{"sub": "twice", "name": k, "text": v} for k, v in sorted(POOL.items())], check_twice)
-    sweep(stats, [{"sub": "determinism", "runs": [[0, "forward"], [1, "reverse"], [2, "interleaved"]]}], check_determinism)
+    sweep(stats, [{"sub": "determinism", "runs": [[0, "forward"], [1, "reverse"], [2, "interleaved"], [0, "forward", "optimised"], [0, "reverse", "c-locale"]]}], check_determinism)
     return stats
 
 
 def replay(case, stats):
-    return {"history": check_history, "stream-history": check_stream_history, "reset": check_reset, "schedule": check_schedule, "determinism": check_determinism, "twice": check_twice, "threads": check_threads}[case["sub"]](case, stats)
+    return {"history": check_history, "stream-history": check_stream_history, "reset": check_reset, "schedule": check_schedule, "determinism": check_determinism, "twice": check_twice, "threads": check_threads, "first-use-race": check_first_use_race}[case["sub"]](case, stats)
 
 
 def run(ctx):
@@ -577,7 +654,7 @@ def run(ctx):
     ctx.units("shared-keyword-dialect-pairs", unit_shared_keywords, [{"shard": i, "nshards": ns} for i in range(ns)], procs=ns)
     ctx.units("sampled-histories", unit_sampled, [{"n": 180 if q else 2000, "seed": ctx.seed, "shard": i} for i in range(8 if q else 16)], procs=16)
     ctx.units("matcher-reset", unit_reset, [{"n": 1500 if q else 8000, "seed": ctx.seed, "shard": i} for i in range(8 if q else 16)], procs=16)
-    ctx.units("free-running-threads", unit_threads, [{"reps": 40 if q else 400}])
+    ctx.units("free-running-threads", unit_threads, [{"reps": 40 if q else 400, "race_reps": 1 if q else 6}])
     ctx.units("interleavings-exhaustive", unit_schedules, [{"maxreads": 5 if q else 7, "shard": i, "nshards": ns} for i in range(ns)], procs=ns)
     ctx.units("interleavings-sampled", unit_schedules_sampled, [{"n": 90 if q else 800, "seed": ctx.seed, "shard": i} for i in range(8 if q else 16)], procs=16)
     ctx.exhaustive = False
